@@ -804,6 +804,20 @@ pub fn gen_c10(rng: &mut Rng, tier: Tier) -> MsgScn {
             c.extra = vec![("unknown_member".into(), json!({"x": [1, 2, 3]})), ("header".into(), json!({"kid": "k1"}))];
         }
     }
+    // material behind a still-valid part (a fourth '.'-segment behind the signature, padding …):
+    // put first, so that the holder-side comparison sees them too
+    {
+        let mut front = Vec::new();
+        for (part, text) in [(Part::S, ".AAAA"), (Part::S, "."), (Part::S, ".e30.AAAA"), (Part::S, "="), (Part::P, ".e30"), (Part::H, " "), (Part::KbS, ".AAAA"), (Part::S, "AA")] {
+            if rng.chance(1, 2) {
+                let mut c = plain(if rng.bool() { Base::Cred(0) } else { Base::Pres(0) }, rand_fmt(rng));
+                c.faults.push(Fault::AppendToPart { part, text: text.to_string() });
+                front.push(c);
+            }
+        }
+        front.append(&mut s.cases);
+        s.cases = front;
+    }
     // a presentation that reveals nothing, with one blank disclosure / doubled separator
     for b in [Base::Cred(0), Base::Pres(0)] {
         for f in [Fmt::Compact, Fmt::Json] {
